@@ -8,7 +8,7 @@ def one(d):
     agent=json.load(open(d+'meta.agent.json')) if os.path.exists(d+'meta.agent.json') else {}
     prop=agent.get('property') or name[:3]
     pre=None
-    for rf in ('round2','round3','round4','round5','round6'):
+    for rf in ('round2','round3','round4','round5','round6','round7'):
         if name.endswith('-r'+rf[-1]):
             pre=json.load(open('/verif/seeded/%s_pre_tailoring.json'%rf)).get(name)
     res=subprocess.run(['/verif/tools/tryseed.sh',d+'patch.diff',prop],capture_output=True,text=True).stdout
